@@ -1,4 +1,5 @@
 import BV.Lemmas.FFI
+import BV.Lemmas.FFIStream
 /-
 C13 — the C ABI behaves as the Rust API: exact cursor accounting, `total_out`, `take_output`,
 no unwinding, thread-count clamp.
@@ -10,10 +11,13 @@ passes the model what the C caller passed and what the TWIN Rust call answered, 
 predict every value the real C function wrote through its out-pointers.
 
 Proved here: the cursor arithmetic, the `total_out` bookkeeping, the partition property of
-`take_output`, what the panic barrier returns, the dispatch of the multi-threaded entry points.
-Byte identity with the Rust API (`ffi_refines_requests`) is differential: the wrappers build the
-two slices from the caller's pointers and counts and pass them through, so the bytes are written by
-the very same Rust call; the harness compares them call by call (`ffi:bytes-differ`).
+`take_output`, what the panic barrier returns, the dispatch of the multi-threaded entry points;
+and, over the stream-machine model `BV.Stream` (section "over the stream-machine model"):
+`unwrapped_entry_points_cannot_panic` in full, `ffi_refines_requests` (the wrapper performs exactly
+the Rust call on the same state with the caller's bytes and hands back its results — byte identity
+then follows from `compress_stream` being a function of its arguments; the harness still compares
+the real bytes call by call, `ffi:bytes-differ`), and `ffi_cursor_exact_stream` (the hypothesis
+`CursorsAgree` is a theorem for PROCESS / FLUSH / FINISH).
 `catch_unwind` itself, the `extern "C"` ABI and the validity of the caller's pointers are runtime
 facts outside the model.
 -/
@@ -191,6 +195,129 @@ theorem opaque_index_in_range (n : Nat) (hn : 0 < n) (callerArray : Bool) (k : N
   · cases callerArray
     · exact ⟨k % n, by simp [h0, hmod16], by simpa using hmod16⟩
     · exact ⟨k % n, by simp [h0, hmod], by simpa using hmod⟩
+
+/-! ## over the stream-machine model (M8, `BV.Stream`) instead of recorded answers -/
+
+section OverStream
+open BV.Stream BV.Bits
+
+/-- `unwrapped_entry_points_cannot_panic` (in full): the four entry points that are NOT wrapped in
+`catch_panic`, as functions of the modelled encoder state.
+* `BrotliEncoderSetParameter`, `BrotliEncoderIsFinished`, `BrotliEncoderHasMoreOutput` are total
+  (their models have no panic outcome: field updates and comparisons only) and answer 0/1;
+  `SetParameter` answers 1 exactly when the Rust method returns `true` (C20 `set_parameter_table`,
+  `params_frozen` say when that is);
+* `BrotliEncoderTakeOutput` has exactly one panic site — the slice start `storage_[off..]` /
+  `tiny_buf_[off..]` of `GetNextOut!` — and that cannot fire while the pending bytes lie inside the
+  buffer `next_out_` points into (`OutOk`), a condition `take_output` itself preserves; it never
+  loops.  (Every push of `compress_stream` checks the same bound and panics INSIDE `catch_panic`
+  otherwise, so a state handed back by a stream call satisfies it.) -/
+theorem unwrapped_entry_points_cannot_panic (s : St) :
+    (∀ id v, (ffiSetParameter s id v).2 ≤ 1 ∧ ((ffiSetParameter s id v).2 = 1 ↔ (setParameter s id v).2 = true) ∧
+             (ffiSetParameter s id v).1 = (setParameter s id v).1) ∧
+    ffiIsFinished s ≤ 1 ∧ ffiHasMoreOutput s ≤ 1 ∧
+    (∀ size, ffiTakeOutput s size ≠ .fuel) ∧
+    (∀ size, OutOk s → ∃ s' n bytes, ffiTakeOutput s size = .ok (s', n, bytes) ∧ n = bytes.length ∧ OutOk s' ∧
+                        s.pending = bytes ++ s'.pending) := by
+  refine ⟨?_, ?_, ?_, ffiTakeOutput_ne_fuel s, ?_⟩
+  · intro id v
+    unfold ffiSetParameter
+    cases h : setParameter s id v with
+    | mk s' b => cases b <;> simp
+  · unfold ffiIsFinished; split <;> omega
+  · unfold ffiHasMoreOutput; split <;> omega
+  · intro size hok
+    have hs := takeSliceOk_of_outOk hok
+    cases ht : BV.Stream.takeOutput s size with
+    | panic => exact absurd ((takeOutput_panic_iff s size).mp ht) (by rw [hs]; simp)
+    | fuel => exact absurd ht (takeOutput_ne_fuel s size)
+    | ok x =>
+      obtain ⟨s', bytes⟩ := x
+      refine ⟨s', bytes.length, bytes, by unfold ffiTakeOutput; rw [ht], rfl, takeOutput_outOk hok ht, ?_⟩
+      unfold BV.Stream.takeOutput at ht
+      rw [hs] at ht
+      simp only [Bool.not_true, Bool.false_eq_true, if_false] at ht
+      split at ht
+      · simp only [Out.ok.injEq, Prod.mk.injEq] at ht
+        obtain ⟨rfl, rfl⟩ := ht
+        have hp : (checkFlushComplete (takeAdvance s (takeCount s size))).pending = s.pending.drop (takeCount s size) := by
+          have := (checkFlushComplete_frame (takeAdvance s (takeCount s size))).2.2.2.2.2.2.2.1
+          rw [this]; rfl
+        rw [hp, List.take_append_drop]
+      · simp only [Out.ok.injEq, Prod.mk.injEq] at ht
+        obtain ⟨rfl, rfl⟩ := ht
+        simp
+
+/-- `ffi_refines_requests`: on an instance in state `s`, `BrotliEncoderCompressStream` performs
+EXACTLY the Rust call `compress_stream(op, the caller's bytes, available_out)` on that very state —
+whatever the addresses, and with a null or dangling pointer never looked at when its count is 0 —
+ends in the state that call ends in, stores the bytes that call produced, and hands back its
+return value and counters.  Byte identity with the Rust API follows because `compress_stream` is a
+function of (state, op, input bytes, capacity). -/
+theorem ffi_refines_requests (o : Oracle) (fuel : Nat) (s : St) (mem : Mem) (op : Nat) (c : StreamCall)
+    (input : List Nat)
+    (hin : (c.availIn = 0 ∧ input = []) ∨ (c.availIn ≠ 0 ∧ ∃ p, c.nextIn = some p ∧ mem p c.availIn = input))
+    (s' : St) (io' : Io) (r : Bool)
+    (h : BV.Stream.compressStream o fuel s op input c.availOut = .ok (s', io', r)) :
+    (ffiCompressStream o fuel s mem op c).1 = s' ∧
+    (ffiCompressStream o fuel s mem op c).2.2 = io'.out ∧
+    (ffiCompressStream o fuel s mem op c).2.1.ret = (if r then 1 else 0) ∧
+    (ffiCompressStream o fuel s mem op c).2.1.availIn = io'.availIn ∧
+    (ffiCompressStream o fuel s mem op c).2.1.availOut = io'.availOut := by
+  have hslice : inputSlice mem c.nextIn c.availIn = input := by
+    unfold inputSlice
+    rcases hin with ⟨h0, h1⟩ | ⟨h0, p, h1, h2⟩
+    · rw [if_pos h0, h1]
+    · rw [if_neg h0, h1]; exact h2
+  unfold ffiCompressStream
+  simp only [hslice, h]
+  simp [BV.FFI.compressStream, ansOfStream]
+
+/-- two C callers that pass the same bytes and the same counts — at different addresses, in
+different memories, with or without a null pointer for a zero count — drive the instance to the same
+state, get the same bytes, the same return value and the same counters -/
+theorem ffi_independent_of_addresses (o : Oracle) (fuel : Nat) (s : St) (mem1 mem2 : Mem) (op : Nat) (c1 c2 : StreamCall)
+    (hai : c1.availIn = c2.availIn) (hao : c1.availOut = c2.availOut)
+    (hbytes : inputSlice mem1 c1.nextIn c1.availIn = inputSlice mem2 c2.nextIn c2.availIn) :
+    (ffiCompressStream o fuel s mem1 op c1).1 = (ffiCompressStream o fuel s mem2 op c2).1 ∧
+    (ffiCompressStream o fuel s mem1 op c1).2.2 = (ffiCompressStream o fuel s mem2 op c2).2.2 ∧
+    (ffiCompressStream o fuel s mem1 op c1).2.1.ret = (ffiCompressStream o fuel s mem2 op c2).2.1.ret ∧
+    (ffiCompressStream o fuel s mem1 op c1).2.1.availIn = (ffiCompressStream o fuel s mem2 op c2).2.1.availIn ∧
+    (ffiCompressStream o fuel s mem1 op c1).2.1.availOut = (ffiCompressStream o fuel s mem2 op c2).2.1.availOut := by
+  unfold ffiCompressStream
+  simp only
+  rw [hbytes, hai, hao]
+  cases BV.Stream.compressStream o fuel s op (inputSlice mem2 c2.nextIn c2.availIn) c2.availOut with
+  | ok x => obtain ⟨s', io', r⟩ := x; simp [BV.FFI.compressStream, ansOfStream]
+  | panic => simp [BV.FFI.compressStream, ansOfStream]
+  | fuel => simp [BV.FFI.compressStream, ansOfStream]
+
+/-- `ffi_cursor_exact` for the modelled machine: for PROCESS / FLUSH / FINISH from a good state the
+hypothesis `CursorsAgree` is a theorem (cursor balance of `BV.Stream.compressStream`), so both
+pointers advance by exactly the decrease of their counters -/
+theorem ffi_cursor_exact_stream (o : Oracle) {B : Nat} (hB : OracleBounded o B) (fuel : Nat) (s : St) (mem : Mem)
+    (op : Nat) (hop : op ≤ 2) (c : StreamCall) (hG : Good s)
+    (hlen : (inputSlice mem c.nextIn c.availIn).length = c.availIn)
+    (hw : s.inputPos + c.availIn < two64)
+    (s' : St) (io' : Io) (r : Bool)
+    (h : BV.Stream.compressStream o fuel s op (inputSlice mem c.nextIn c.availIn) c.availOut = .ok (s', io', r)) :
+    (∀ p, c.nextIn = some p → (ffiCompressStream o fuel s mem op c).2.1.nextIn
+        = some (p + (c.availIn - (ffiCompressStream o fuel s mem op c).2.1.availIn))) ∧
+    (∀ p, c.nextOut = some p → (ffiCompressStream o fuel s mem op c).2.1.nextOut
+        = some (p + (c.availOut - (ffiCompressStream o fuel s mem op c).2.1.availOut))) ∧
+    (ffiCompressStream o fuel s mem op c).2.2.length = c.availOut - (ffiCompressStream o fuel s mem op c).2.1.availOut := by
+  have hca := cursorsAgree_of_stream c hop hG hlen (by rw [hlen]; exact hw) hB h
+  have hca' : CursorsAgree { c with encTotal := s.totalOut } (ansOfStream c.availIn c.availOut (.ok (s', io', r))) := ⟨hca.inEq, hca.outEq⟩
+  obtain ⟨_, _, e3, e4, _, _⟩ := ffi_cursor_exact { c with encTotal := s.totalOut } _ (by simp [ansOfStream]) hca'
+  unfold ffiCompressStream
+  simp only [h]
+  refine ⟨e3, e4, ?_⟩
+  have := hca.outEq
+  simp only [ansOfStream] at this
+  simp only [BV.FFI.compressStream, ansOfStream, Bool.false_eq_true, if_false]
+  omega
+
+end OverStream
 
 /-! ## non-vacuity -/
 
